@@ -542,6 +542,44 @@ theorem C13_no_stale_length (encoding : Coding) (h : Head) (size : BodySize) (c 
   obtain ⟨_, _, _, _, _, _, _, hnc, hsz⟩ := C13_head encoding h size c hm
   rw [hsz, hnc]; rfl
 
+/-- the handler declared the length of its un-encoded body with `no_chunking(len)` (or through
+`streaming()` with a `Content-Length`): if the response is encoded, the declared length is not
+sent and chunked framing is back on — the special case of `C13_no_stale_length` that needs the
+`head.no_chunking(false)` of `update_head` -/
+theorem C13_no_stale_length_declared (encoding : Coding) (h : Head) (len : Nat) (size : BodySize)
+    (c : Coding) (hm : (response encoding (builderNoChunking h len) size).2 = .encode c) :
+    (builderNoChunking h len).noChunking = true ∧
+    hGetAll (builderNoChunking h len).headers "content-length" = [toString len] ∧
+    h1Framing (encSize (response encoding (builderNoChunking h len) size).2 size)
+      (response encoding (builderNoChunking h len) size).1.noChunking (some (toString len)) = (true, none) := by
+  refine ⟨rfl, ?_, C13_no_stale_length encoding _ size c hm _⟩
+  simp [builderNoChunking, hGetAll, hInsert, List.filter_append, List.filter_filter]
+
+example : (response .gzip (builderNoChunking ⟨200, [], false⟩ 9000) .stream).2 = .encode .gzip := by decide
+
+/-- `update_head` without `head.no_chunking(false)` (seeded change C13-1) -/
+def updateHeadNoReset (c : Coding) (h : Head) : Head :=
+  { h with headers := hAppend (hInsert h.headers "content-encoding" c.name) "vary" "accept-encoding" }
+
+/-- …and the reset is needed: without it a gzip-encoded `Stream` body of a handler that declared
+9000 bytes is framed by `Content-Length: 9000` and no chunking. -/
+theorem witness_no_reset_stale :
+    h1Framing .stream (updateHeadNoReset .gzip (builderNoChunking ⟨200, [], false⟩ 9000)).noChunking
+      (hGetAll (updateHeadNoReset .gzip (builderNoChunking ⟨200, [], false⟩ 9000)).headers "content-length").head?
+      = (false, some "9000") := by decide
+
+/-- `streaming()` declares the length exactly when a numeric `Content-Length` is present -/
+theorem C13_streaming_declares (h : Head) :
+    ((builderStreaming h).1.noChunking = true ∧ ∃ n, (builderStreaming h).2 = .sized n) ∨
+    ((builderStreaming h).1.noChunking = h.noChunking ∧ (builderStreaming h).2 = .stream) := by
+  unfold builderStreaming
+  dsimp only
+  split
+  · left; exact ⟨rfl, _, rfl⟩
+  · right; constructor
+    · split <;> rfl
+    · rfl
+
 /-- …while a response that is passed through keeps the framing its own size dictates. -/
 theorem C13_passthrough_framing (encoding : Coding) (h : Head) (size : BodySize)
     (hp : MustPass encoding h size) (hcl : Option String) :
